@@ -546,3 +546,14 @@ func (w *World) execGov(c sdk.Context, op Op) error {
 	}
 	return fmt.Errorf("bad gov op")
 }
+
+// ExecGovKeepBranch runs a governance op on a fresh branch and returns the branch even when the handler fails
+// (used only to count handlers that write before failing; tx semantics would drop the branch).
+func (w *World) ExecGovKeepBranch(ctx sdk.Context, op Op) (sdk.Context, error) {
+	c, _ := ctx.CacheContext()
+	err, _ := callRecover(func() error { return w.execGov(c, op) })
+	return c, err
+}
+
+// AllianceDigest hashes the alliance store only.
+func (w *World) AllianceDigest(ctx sdk.Context) [32]byte { return w.Hash(ctx, []string{"alliance"}) }
